@@ -129,3 +129,26 @@ Proof.
                         | apply gen_strip_ic_episodes_model | apply gen_extract_input_model].
 Qed.
 Print Assumptions C03_generated_utilities.
+
+(* the frame itself - unique_episodes, split_episodes, combine_episodes as REGENERATED from the source on this run
+   (labels whole numbers, data matrix as (label, row) pairs; np.bincount / np.flatnonzero / boolean-mask row selection /
+   hstack of the label column / vstack with their numpy meaning in SliceLib.v) - is the model's uniq / split / combine,
+   for every data matrix, labelling and arrangement; hence "split, apply per episode keeping the label, combine" over
+   the generated functions is map_episodes, to which every theorem above applies *)
+Theorem C03_generated_frame : forall (T : Type) (ep : bool) (X : dmat T) (eps : episodes T)
+    (g : list (list T) -> list (list T)),
+  gen_unique_episodes (labels X) = uniq (labels X) /\
+  gen_split_episodes T X ep = split ep X /\
+  gen_combine_episodes T eps ep = combine ep eps /\
+  gen_combine_episodes T (map (fun e => (fst e, g (snd e))) (gen_split_episodes T X ep)) ep = map_episodes ep g X.
+Proof.
+  intros. repeat split; [apply gen_unique_episodes_model | apply gen_split_episodes_model
+                        | apply gen_combine_episodes_model | apply gen_frame_model].
+Qed.
+Print Assumptions C03_generated_frame.
+
+(* non-vacuity: the generated frame runs (interleaved rows, labels with a gap) *)
+Example C03_generated_frame_example :
+  gen_split_episodes Z [(5%N, [1%Z]); (2%N, [2%Z]); (5%N, [3%Z]); (2%N, [4%Z])] true
+  = [(2%N, [[2%Z]; [4%Z]]); (5%N, [[1%Z]; [3%Z]])].
+Proof. vm_compute. reflexivity. Qed.
